@@ -385,6 +385,52 @@ def reboot_case(rng, fixed=None):
                 {'op': 'reboot', 'n': n, 'uptime': uptime, 'after': after, 'order': order})
 
 
+def schedule_case():
+    """a stored submit_sm with an absolute schedule_delivery_time / validity_period that lies in the past by the time of the
+    restart (the normal case: receipts for scheduled messages come after the scheduled time).  Real time passes here
+    (about 1.3 s): the stores must load whatever the wall clock says."""
+    import time as _time
+    from datetime import datetime, timedelta, timezone
+    d1 = tempfile.mkdtemp(prefix='c19s-')
+    fail = None
+    try:
+        a = CorrSim(directory=d1)
+        try:
+            soon = datetime.now(timezone.utc) + timedelta(seconds=1.1)
+            m1 = a.submit(1, 41, 1041)
+            m1.schedule_delivery_time = soon
+            m2 = a.submit(2, 42, 1042)
+            m2.validity_period = soon
+            m3 = a.submit(3, 43, 1043)
+            t = 1000
+            for i, m in enumerate((m1, m2, m3)):
+                t += Q
+                a.op_put(t, m)
+                t += Q
+                a.op_hresp(t, a.resp('submitresp', i + 1, 0, 'sc%d' % i))
+        finally:
+            a.close()
+        _time.sleep(1.3)
+        b = CorrSim(directory=d1)
+        try:
+            b.clock.q = t
+            for i in (2, 0, 1):
+                t += Q
+                res = b.op_hdel(t, b.deliver(9300 + i, 'x', receipt=('sc%d' % i, 0)))[2]
+                have = (getattr(res, 'log_id', None), getattr(res, 'extra_data', None))
+                if fail is None and have != ('L%d' % (41 + i), 'L%d' % (1041 + i)):
+                    fail = ('correlation for id sc%d is not found after a restart that falls after the scheduled / validity time of '
+                            'a stored message: receipt handed over with log_id %r / extra_data %r' % (i, have[0], have[1]))
+        finally:
+            b.close()
+    except Exception as e:      # noqa
+        fail = 'storing / reloading messages with absolute times raised %r' % (e,)
+    finally:
+        shutil.rmtree(d1, ignore_errors=True)
+    line = '# restart-after-scheduled-time'
+    return Case(line, line, ('scheduled',), fail, {'op': 'scheduled'})
+
+
 def file_states(d):
     out = {}
     for f in sorted(os.listdir(d)):
@@ -524,6 +570,7 @@ def generate(rng, tier):
         yield restart_case(rng)
     for _ in range(60 if thorough else 16):
         yield reboot_case(rng)
+    yield schedule_case()
     for _ in range(120 if thorough else 30):
         for c in crash_cases(rng, 40 if thorough else 14):
             yield c
@@ -534,6 +581,8 @@ def replay(inp):
         return Case(inp['line'], '', None, None, inp)
     if inp.get('op') == 'restart':
         return restart_case(None, fixed=(inp['hist'], inp['at']))
+    if inp.get('op') == 'scheduled':
+        return schedule_case()
     if inp.get('op') == 'reboot':
         return reboot_case(None, fixed=(inp['n'], inp['uptime'], inp['after'], inp['order']))
     if inp.get('op') == 'crash':
